@@ -20,9 +20,10 @@ TRUSTED_BASE = [
 ASSUMPTIONS = ["numeric literals: |int| <= 2^53, floats printed by repr() without exponent or with a negative exponent (floats >= 1e16 print as 1e+16 and re-lex as integers: outside the property's stated range)"]
 TECHNIQUE = "serializer model + parser model correspondence; round trip compile(str(q)) = q, idempotence and grammar membership checked on the implementation with the Coq recognizer; Coq theorems on canonical quoting"
 LEVEL = "proof"
-LEVEL_TEXT = ("Proved (Props/C12.v): names and string literals are printed in the RFC's canonical single-quoted form (C12_quotes_canonical). The round-trip theorem C12_roundtrip is stated there and "
-              "NOT proved (partial); round trip, idempotence and validity of the text are decided on every generated query against the real code, and the text is compared with the model.")
-LEVEL_NOTE = "Partial for the round trip. Trusted: Coq kernel; serializer model; correspondence; extraction and driver."
+LEVEL_TEXT = ("Proved (Props/C12.v): C12_filter_free_roundtrip - for every query without filter selectors the printed text compiles to the same query (omitted slice steps made explicit), prints identically again "
+              "and selects the same nodes, end to end through the serializer, lexer and parser models; C12_quotes_canonical, C12_parentheses. For queries with filters the round trip is NOT proved (partial): "
+              "round trip, idempotence and validity of the text are decided on every generated query against the real code, and the text is compared with the model.")
+LEVEL_NOTE = "Partial for queries with filters. Trusted: Coq kernel; serializer, lexer, parser models (correspondence); extraction and driver."
 
 
 def cases(ctx, budget):
